@@ -48,16 +48,16 @@ theorem fact_update_service_shape :
 /-! ### the list holds only what passed the registration predicate -/
 
 /-- `verifyRegistration` accepts exactly the presentations the property describes (`Acceptable`): sound and complete. -/
-theorem verify_iff_acceptable (d : Def) (s : Store) (now : Nat) (vp : VP) :
-    verify d s now .server vp = .ok () ↔ ∃ subj e, Acceptable d s now vp subj e :=
-  verify_ok_acceptable d s now vp
+theorem verify_iff_acceptable (d : Def) (side : Side) (s : Store) (now : Nat) (vp : VP) :
+    verify d s now side vp = .ok () ↔ ∃ subj e, Acceptable d side s now vp subj e :=
+  verify_ok_acceptable d side s now vp
 
 /-- **listed_sound.** After ANY history (registrations of arbitrary presentations with arbitrary verdicts, resets,
     clock steps, polls) every row of the server list stems from a presentation that satisfied the registration
     predicate at some earlier clock value against the list of that moment, and its columns are the presentation's. -/
 theorem listed_sound (cfg : Cfg) (d : Def) (evs : List Ev) (t0 : Nat) :
     ∀ r ∈ (run cfg d { t := t0 } evs).S.rows,
-      RowWF r ∧ ∃ s now, now ≤ (run cfg d { t := t0 } evs).t ∧ SInv s ∧ Acceptable d s now r.vp r.subject r.exp := by
+      RowWF r ∧ ∃ s now, now ≤ (run cfg d { t := t0 } evs).t ∧ SInv s ∧ Acceptable d .server s now r.vp r.subject r.exp := by
   intro r hr
   have h := serverOK_run cfg d evs { t := t0 } (serverOK_init d t0)
   exact ⟨h.inv.wf r hr, h.listed r hr⟩
@@ -143,5 +143,199 @@ example : (register exDef (run exCfg exDef { t := 10 } [.register (exVP "a" "v1"
     = .err "retract-unknown" := by decide
 /-- a presentation that outlives a credential is rejected -/
 example : (register exDef {} 10 1 { exVP "a" "v1" 50 with creds := [{ exp := some 40 }, { exp := none }] }).2 = .err "cred-exp" := by decide
+
+
+/-! ### the replica -/
+
+/-- `updateService` returns right after a seed change wiped the replica (fix 305f8e3): the next poll starts at 0 -/
+theorem fact_restart_after_wipe : Facts.C16.restartAfterWipe = true := by decide
+
+/-- the model instantiated with what the source says today -/
+def factCfg : Cfg := { serviceFirst := Facts.C16.getServiceFirst, restartOnWipe := Facts.C16.restartAfterWipe }
+
+theorem factCfg_serviceFirst : factCfg.serviceFirst = true := fact_get_reads_timestamp_first.1
+theorem factCfg_restartOnWipe : factCfg.restartOnWipe = true := fact_restart_after_wipe
+
+/-- **get_no_gap.** In every world reachable by an admissible history — registrations, refreshes, retractions, clock
+    steps and resets interleaved in any way with the two reads of `get` (`pollA`, `pollB`) and the replica's update —
+    a replica that carries the list's seed has a timestamp not above the list's, and holds EVERY live server row at or
+    below its timestamp: asking for "everything after my timestamp" never skips an entry. (Rows above the returned
+    timestamp may be delivered early; `poll_idempotent_on_duplicates` makes that harmless.) -/
+theorem get_no_gap (d : Def) (K : VP → Prop) (hK : IdFun K) (w : World) (hw : Reach factCfg d K w)
+    (hseed : w.C.seed = w.S.seed) :
+    w.C.lastTs ≤ w.S.lastTs ∧
+    ∀ r ∈ w.S.rows, r.ts ≤ w.C.lastTs → w.t < r.exp → ∃ c ∈ w.C.rows, c.subject = r.subject ∧ c.id = r.id := by
+  have h := winv_reach hK factCfg factCfg_serviceFirst factCfg_restartOnWipe d hw
+  exact ⟨(h.sync hseed).1, (h.sync hseed).2.1⟩
+
+/-- and every live replica row is still listed, or its subject has a newer entry above the replica's timestamp -/
+theorem replica_rows_accounted (d : Def) (K : VP → Prop) (hK : IdFun K) (w : World) (hw : Reach factCfg d K w)
+    (hseed : w.C.seed = w.S.seed) :
+    ∀ c ∈ w.C.rows, w.t < c.exp →
+      (∃ r ∈ w.S.rows, r.subject = c.subject ∧ r.id = c.id) ∨
+      (∃ r ∈ w.S.rows, r.subject = c.subject ∧ w.C.lastTs < r.ts ∧ c.exp ≤ r.exp) :=
+  (((winv_reach hK factCfg factCfg_serviceFirst factCfg_restartOnWipe d hw).sync hseed).2.2)
+
+/-- **poll_idempotent_on_duplicates.** A response all of whose presentations the replica already holds is skipped
+    entirely: the replica (rows, seed, timestamp, flags) is unchanged. -/
+theorem poll_idempotent_on_duplicates (d : Def) (now seed ts : Nat) (c : Store) (ctr : Nat) (resp : List VP)
+    (h : ∀ vp ∈ resp, ∃ subj id e, VPWF vp subj id e ∧ c.hasKey subj id = true) :
+    clientLoop d now seed ts c ctr resp = (c, ctr, .ok ()) :=
+  clientLoop_all_present d now seed ts c ctr resp h
+
+/-- **replica_converges** (proved under `IdFun` and `ExpMono`, see `replica_convergesStmt`). For every admissible
+    history — any interleaving of registrations (valid, defective, refreshes, retractions), clock steps, resets, the two
+    reads of `get`, replica updates in any map iteration order, background validation — two polls that start after the
+    last server event leave the replica with exactly the list's live set (and one suffices when the replica already
+    carries the list's seed or none). The server side does not change meanwhile. -/
+theorem replica_converges_partial (d : Def) (K : VP → Prop) (hK : IdFun K) (w : World) (hw : Reach factCfg d K w)
+    (p1 p2 : List VP → List VP) (hp1 : ∀ l, (p1 l).Perm l) (hp2 : ∀ l, (p2 l).Perm l) :
+    let w2 := poll factCfg d (poll factCfg d w p1) p2
+    w2.S = w.S ∧ w2.t = w.t ∧ LiveEq w2.S w2.C w2.t ∧ (w2.C.seed = w2.S.seed ∨ w2.C.seed = 0) := by
+  intro w2
+  have h := winv_reach hK factCfg factCfg_serviceFirst factCfg_restartOnWipe d hw
+  obtain ⟨a, b, c, e⟩ := converge_two hK factCfg factCfg_serviceFirst factCfg_restartOnWipe d w p1 p2 hp1 hp2 h
+  refine ⟨a, b, ?_, ?_⟩
+  · show LiveEq w2.S w2.C w2.t
+    rw [a, b]; exact c
+  · show w2.C.seed = w2.S.seed ∨ w2.C.seed = 0
+    rw [a]; exact e
+
+theorem replica_converges_same_seed (d : Def) (K : VP → Prop) (hK : IdFun K) (w : World) (hw : Reach factCfg d K w)
+    (p : List VP → List VP) (hp : ∀ l, (p l).Perm l) (hseed : w.C.seed = w.S.seed ∨ w.C.seed = 0) :
+    LiveEq w.S (poll factCfg d w p).C w.t ∧ (poll factCfg d w p).S = w.S ∧ (poll factCfg d w p).t = w.t := by
+  have h := winv_reach hK factCfg factCfg_serviceFirst factCfg_restartOnWipe d hw
+  obtain ⟨a, b, c, _⟩ := converge_one hK factCfg factCfg_serviceFirst factCfg_restartOnWipe d w p hp h hseed
+  exact ⟨c, a, b⟩
+
+/-- **reset_restarts.** A poll that meets another seed than the replica's leaves the replica EMPTY with timestamp 0
+    and the new seed, whatever the response contained; the next `get` therefore asks for everything after 0. -/
+theorem reset_restarts (d : Def) (w : World) (perm : List VP → List VP) (h1 : w.C.seed ≠ w.S.seed) (h2 : w.C.seed ≠ 0) :
+    (poll factCfg d w perm).C.rows = [] ∧ (poll factCfg d w perm).C.lastTs = 0 ∧ (poll factCfg d w perm).C.seed = w.S.seed ∧
+    ((step factCfg d (poll factCfg d w perm) .pollA).1.pending.map (·.after)) = some 0 := by
+  obtain ⟨a, _, _⟩ := poll_wipes factCfg factCfg_serviceFirst factCfg_restartOnWipe d w perm h1 h2
+  refine ⟨by rw [a], by rw [a], by rw [a], ?_⟩
+  simp only [step, a, Option.map_some]
+  split <;> rfl
+
+/-- **search_sound.** After any history (map iteration orders being permutations) the client's search returns only
+    rows that have not expired and whose presentation the client's OWN `verifyRegistration` accepted at an earlier
+    clock value — i.e. that satisfied the registration predicate with the client's own `VerifyVP` verdict. -/
+theorem search_sound (d : Def) (evs : List Ev) (t0 : Nat) (hq : ∀ e ∈ evs, PermOK e) :
+    let w := run factCfg d { t := t0 } evs
+    ∀ r ∈ w.C.search w.t, w.t < r.exp ∧
+      ∃ s now subj e, now ≤ w.t ∧ Acceptable d .client s now r.vp subj e := by
+  intro w r hr
+  have h := srchInv_run factCfg factCfg_serviceFirst factCfg_restartOnWipe d evs t0 hq
+  have hm := List.mem_filter.mp hr
+  have hv : w.C.isValidated r = true ∧ ¬ r.exp ≤ w.t := by
+    have := hm.2
+    simp only [Bool.and_eq_true, Bool.not_eq_true', decide_eq_false_iff_not] at this
+    exact this
+  refine ⟨by omega, ?_⟩
+  obtain ⟨s, now, h1, h2⟩ := h.cv.ver r hm.1 hv.1
+  obtain ⟨subj, e, hA⟩ := (verify_ok_acceptable d .client s now r.vp).mp h2
+  exact ⟨s, now, subj, e, h1, hA⟩
+
+
+/-- the full-strength statement: no side condition on the order of a subject's expiry times or on id reuse -/
+def replica_convergesStmt : Prop :=
+  ∀ (d : Def) (evs : List Ev) (t0 : Nat), (∀ e ∈ evs, PermOK e) →
+    let w := run factCfg d { t := t0 } evs
+    let w2 := poll factCfg d (poll factCfg d w id) id
+    LiveEq w2.S w2.C w2.t
+
+/-- history: `a` registers v1 (exp 100); the client polls; `a` refreshes with the SHORTER-lived v2 (exp 20), which deletes v1
+    on the server; v2 expires (clock 30); `b` registers v3, whose `add` prunes v2; the client polls twice -/
+def staleHistory : List Ev :=
+  [.register (exVP "a" "v1" 100), .pollA, .pollB id, .register (exVP "a" "v2" 20), .tick 20, .register (exVP "b" "v3" 110)]
+
+theorem replica_converges_full_false : ¬ replica_convergesStmt := by
+  intro h
+  have h1 := h exDef staleHistory 10 (by
+    intro e he
+    simp only [staleHistory, List.mem_cons, List.mem_nil_iff, or_false] at he
+    rcases he with rfl | rfl | rfl | rfl | rfl | rfl <;> first | trivial | (intro l; exact List.Perm.refl _))
+  have h2 := (h1 ("a", "v1")).mpr (by decide)
+  revert h2
+  decide
+
+
+/-- `ExpMono` is needed: the counterexample replayed on the real code is harness/corpus/C16/03-*.jsonl (open finding) -/
+theorem staleHistory_violates_only_expMono :
+    ¬ ExpMono exDef (run factCfg exDef { t := 10 } (staleHistory.take 3)) (exVP "a" "v2" 20) := by
+  intro h
+  have := h (by decide) "a" "example" 20 rfl rfl
+    ((run factCfg exDef { t := 10 } (staleHistory.take 3)).S.rows.head (by decide)) (by decide) (by decide)
+  revert this
+  decide
+
+/-- `IdFun` is needed: a signer that re-uses a presentation id for a DIFFERENT presentation (v1 again, now expiring at 200)
+    makes the replica skip it as a duplicate; once the old one (exp 100) has expired the live sets differ for good -/
+theorem id_reuse_diverges :
+    let w := run factCfg exDef { t := 10 }
+      [.register (exVP "a" "v1" 100), .pollA, .pollB id, .register (exVP "a" "v2" 100), .register (exVP "a" "v1" 105), .tick 92]
+    let w2 := poll factCfg exDef (poll factCfg exDef w id) id
+    ("a", "v1") ∈ w2.S.liveKeys w2.t ∧ ("a", "v1") ∉ w2.C.liveKeys w2.t := by decide
+
+/-- **the read order of `get` matters.** With the mirrored order (rows first, then seed/timestamp) a registration between
+    the two reads is lost for good: the replica ends with the list's seed AND timestamp but without the entry. -/
+def mirroredCfg : Cfg := { serviceFirst := false, restartOnWipe := true }
+theorem get_mirrored_order_unsafe :
+    let w := run mirroredCfg exDef { t := 10 } [.register (exVP "a" "v1" 100), .pollA, .register (exVP "a" "v2" 105), .pollB id]
+    let w2 := poll mirroredCfg exDef (poll mirroredCfg exDef w id) id
+    ("a", "v2") ∈ w2.S.liveKeys w2.t ∧ ("a", "v2") ∉ w2.C.liveKeys w2.t ∧ w2.C.seed = w2.S.seed ∧ w2.C.lastTs = w2.S.lastTs := by
+  decide
+
+/-- **starting over after a seed change matters** (the defect repaired by 305f8e3): applying the response after the wipe
+    loses the new list's entries at or below the old timestamp for good -/
+def unfixedCfg : Cfg := { serviceFirst := true, restartOnWipe := false }
+theorem seed_change_partial_response_unsafe :
+    let w := run unfixedCfg exDef { t := 10 }
+      [.register (exVP "a" "v1" 100), .pollA, .pollB id, .reset, .register (exVP "a" "v2" 100), .register (exVP "b" "v3" 100)]
+    let w2 := poll unfixedCfg exDef (poll unfixedCfg exDef w id) id
+    ("a", "v2") ∈ w2.S.liveKeys w2.t ∧ ("a", "v2") ∉ w2.C.liveKeys w2.t ∧ w2.C.seed = w2.S.seed := by
+  decide
+
+/-! ### non-vacuity of the replica theorems -/
+
+def exK : VP → Prop := fun vp => vp = exVP "a" "v1" 100 ∨ vp = exVP "b" "v2" 110 ∨ vp = exRetract "a" "v3" "v1" 100
+
+theorem exK_idFun : IdFun exK := by
+  intro a b ha hb s ma mb hsa hsb hid
+  rcases ha with rfl | rfl | rfl <;> rcases hb with rfl | rfl | rfl <;>
+    first | rfl | (simp [exVP, exRetract] at hsa hsb hid; try (rw [← hsa.1] at hsb; simp at hsb))
+
+/-- an admissible history with a registration racing a poll, a retraction by the owner and a reset -/
+def exWorld : World := run factCfg exDef { t := 10 }
+  [.register (exVP "a" "v1" 100), .pollA, .register (exVP "b" "v2" 110), .pollB id, .register (exRetract "a" "v3" "v1" 100), .tick 3]
+
+example : Reach factCfg exDef exK exWorld := by
+  have h0 := Reach.init (cfg := factCfg) (d := exDef) (K := exK) 10
+  have h1 := Reach.step _ (.register (exVP "a" "v1" 100)) h0 ⟨Or.inl rfl, by intro _ s m e hs he r hr; cases hr⟩
+  have h2 := Reach.step _ .pollA h1 trivial
+  have h3 := Reach.step _ (.register (exVP "b" "v2" 110)) h2 ⟨Or.inr (Or.inl rfl), by
+    intro _ s m e hs he r hr hsub
+    simp [exVP] at hs he
+    have hs1 := hs.1; subst hs1; subst he
+    have : ∀ r ∈ (step factCfg exDef (step factCfg exDef { t := 10 } (Ev.register (exVP "a" "v1" 100))).fst Ev.pollA).fst.S.rows,
+        r.subject = "b" → r.exp ≤ 110 := by decide
+    exact this r hr hsub⟩
+  have h4 := Reach.step _ (.pollB id) h3 (fun l => List.Perm.refl _)
+  have h5 := Reach.step _ (.register (exRetract "a" "v3" "v1" 100)) h4 ⟨Or.inr (Or.inr rfl), by
+    intro _ s m e hs he r hr hsub
+    simp [exRetract] at hs he
+    have hs1 := hs.1; subst hs1; subst he
+    have : ∀ r ∈ (step factCfg exDef (step factCfg exDef (step factCfg exDef (step factCfg exDef { t := 10 }
+        (Ev.register (exVP "a" "v1" 100))).fst Ev.pollA).fst (Ev.register (exVP "b" "v2" 110))).fst (Ev.pollB id)).fst.S.rows,
+        r.subject = "a" → r.exp ≤ 100 := by decide
+    exact this r hr hsub⟩
+  exact Reach.step _ (.tick 3) h5 trivial
+
+example : exWorld.S.rows.map (fun r => (r.ts, r.subject, r.id)) = [(2, "b", "v2"), (3, "a", "v3")] ∧
+    exWorld.C.rows.map (fun r => (r.subject, r.id)) = [("a", "v1"), ("b", "v2")] ∧ exWorld.C.seed = exWorld.S.seed := by decide
+
+/-- search returns something: both rows were verified by the client itself -/
+example : (exWorld.C.search exWorld.t).length = 2 := by decide
 
 end Nuts.C16.Props
